@@ -141,14 +141,13 @@ def lookupParts : List String → Val → Option Val
       | none => none
     | _ => none
 
-/-- returns the found value, `none` for `(None, None)` -/
+/-- returns the found value, `none` for `(None, None)`.  A leading `^` makes the
+    path relative to the root document, `^^` stands for a literal `^`. -/
 def lookupField (ctx : Ctx) (doc : Val) (path : String) : Option Val :=
-  let (path', context) :=
-    if path.startsWith "^" then
-      let p1 := (path.drop 1).toString
-      (p1, if p1.startsWith "^" then doc else (if ctx.isChild then ctx.root else doc))
-    else (path, doc)
-  lookupParts (path'.splitOn ".") context
+  match path.toList with
+  | '^' :: '^' :: rest => lookupParts ((String.ofList ('^' :: rest)).splitOn ".") doc
+  | '^' :: rest => lookupParts ((String.ofList rest).splitOn ".") (if ctx.isChild then ctx.root else doc)
+  | _ => lookupParts (path.splitOn ".") doc
 
 /-! ### rule handlers -/
 
@@ -285,18 +284,22 @@ def hMax (env : Env) (ctx : Ctx) (schema doc : Val) (f : Key) (c v : Val) : M (L
     pure [e]
   | _ => pure []
 
-def hLength (env : Env) (ctx : Ctx) (schema doc : Val) (f : Key) (c v : Val) (isMin : Bool) : M (List ESpec) := do
-  if !v.isIterable then return []
-  let n ← liftPy (v.pyLen? "_validate_length")
-  match c.num? with
-  | none => raisePy "TypeError" "_validate_length"
-  | some cn =>
-    let bad := if isMin then Val.numLt (Int.ofNat n, 0) cn else Val.numLt cn (Int.ofNat n, 0)
-    if bad then
-      let e : ESpec := { code := if isMin then Code.MIN_LENGTH else Code.MAX_LENGTH,
-                         rule := some (if isMin then "minlength" else "maxlength"), info := [.int n] }
-      pure [e]
-    else pure []
+def hLength (env : Env) (ctx : Ctx) (schema doc : Val) (f : Key) (c v : Val) (isMin : Bool) : M (List ESpec) :=
+  let _ := (env, ctx, schema, doc, f)
+  if !v.isIterable then .ok []
+  else
+    match v.pyLen? "_validate_length" with
+    | .error x => .error (.py x.type x.site)
+    | .ok n =>
+      match c.num? with
+      | none => raisePy "TypeError" "_validate_length"
+      | some cn =>
+        if isMin then
+          (if Val.numLt (Int.ofNat n, 0) cn
+           then .ok [{ code := Code.MIN_LENGTH, rule := some "minlength", info := [.int n] }] else .ok [])
+        else
+          (if Val.numLt cn (Int.ofNat n, 0)
+           then .ok [{ code := Code.MAX_LENGTH, rule := some "maxlength", info := [.int n] }] else .ok [])
 
 def hRegex (env : Env) (ctx : Ctx) (schema doc : Val) (f : Key) (c v : Val) : M (List ESpec) := do
   match v, c with
@@ -338,17 +341,17 @@ def depsMapping (ctx : Ctx) (doc : Val) : List (Key × Val) → M (List (Key × 
     let rest ← depsMapping ctx doc r
     pure (if allowed.any (fun a => Val.pyEq wanted a) then rest else (k, wanted) :: rest)
 
-def hDependencies (env : Env) (ctx : Ctx) (schema doc : Val) (f : Key) (c v : Val) : M (List ESpec) := do
-  let _ := v
-  let deps := if c.isStr || !(c.isIterable || c.isMapping) then Val.seq true [c] else c
-  let errs : List ESpec ← match deps with
-    | .seq _ xs => depsSequence ctx doc xs
-    | .dict kvs => do
-      let bad ← depsMapping ctx doc kvs
-      if bad.isEmpty then pure []
-      else pure [{ code := Code.DEPENDENCIES_FIELD_VALUE, rule := some "dependencies", info := [.dict bad] }]
-    | _ => pure []
-  pure errs
+def hDependencies (env : Env) (ctx : Ctx) (schema doc : Val) (f : Key) (c v : Val) : M (List ESpec) :=
+  let _ := (env, schema, f, v)
+  match (if c.isStr || !(c.isIterable || c.isMapping) then Val.seq true [c] else c) with
+  | .seq _ xs => depsSequence ctx doc xs
+  | .dict kvs =>
+    match depsMapping ctx doc kvs with
+    | .error e => .error e
+    | .ok bad =>
+      if bad.isEmpty then .ok []
+      else .ok [{ code := Code.DEPENDENCIES_FIELD_VALUE, rule := some "dependencies", info := [.dict bad] }]
+  | _ => .ok []
 
 def keyIn (kvs : List (Key × Val)) (x : Val) : Bool :=
   match x.toKey? with
@@ -450,45 +453,66 @@ def hValuesrules (env : Env) (rec : Rec) (ctx : Ctx) (schema doc : Val) (f : Key
       pure [e]
   | _ => pure []
 
-/-- `__validate_logical`: per definition a child validation of the *whole* current
-    document against `{field: definition + inherited type/allow_unknown}` (after the
-    repair that resolves the field's own rule set first) -/
-def logicalDefs (env : Env) (rec : Rec) (ctx : Ctx) (schema doc : Val) (f : Key) (op : String)
+/-- a definition with the field's `type` / `allow_unknown` inherited where it has
+    none of its own, and the validator's `allow_unknown` as the last resort
+    (`__validate_logical`, after the repair that resolves the field's rule set first) -/
+def inheritRule (rs : Val) (kvs : List (Key × Val)) (rule : String) : List (Key × Val) :=
+  if Val.dhas kvs (kS rule) then kvs
+  else match rs.dget? (kS rule) with
+    | some x => Val.dset kvs (kS rule) x
+    | none => kvs
+
+def defRules (ctx : Ctx) (rs : Val) (dkvs : List (Key × Val)) : List (Key × Val) :=
+  let d1 := inheritRule rs (inheritRule rs dkvs "allow_unknown") "type"
+  if Val.dhas d1 (kS "allow_unknown") then d1 else Val.dset d1 (kS "allow_unknown") ctx.cfg.allowUnknown
+
+/-- the child validation of definition number `i`: the *whole* current document
+    against `{field: definition}` with validator-level `allow_unknown=True` -/
+def defChild (rec : Rec) (ctx : Ctx) (doc : Val) (f : Key) (op : String) (upd : Bool) (rs : Val)
+    (i : Nat) (d : Val) : M (List Err) :=
+  match d with
+  | .dict dkvs =>
+    rec (ctx.child doc { allowUnknown := some (.bool true) } none [f, kS op, Key.i (Int.ofNat i)])
+        (.dict [(f, .dict (defRules ctx rs dkvs))]) doc upd
+  | _ => raisePy "AttributeError" "__validate_logical"
+
+/-- `__validate_logical`: (number of definitions that validate, child errors of the others) -/
+def logicalDefs (rec : Rec) (ctx : Ctx) (doc : Val) (f : Key) (op : String)
     (upd : Bool) (rs : Val) : Nat → List Val → M (Nat × List Err)
-  | _, [] => pure (0, [])
-  | i, d :: ds => do
-    let dkvs ← match d with
-      | .dict kvs => pure kvs
-      | _ => raisePy "AttributeError" "__validate_logical"
-    let inherit (kvs : List (Key × Val)) (rule : String) : List (Key × Val) :=
-      if Val.dhas kvs (kS rule) then kvs
-      else match rs.dget? (kS rule) with
-        | some x => Val.dset kvs (kS rule) x
-        | none => kvs
-    let d1 := inherit (inherit dkvs "allow_unknown") "type"
-    let d2 := if Val.dhas d1 (kS "allow_unknown") then d1 else Val.dset d1 (kS "allow_unknown") ctx.cfg.allowUnknown
-    let cctx := ctx.child doc { allowUnknown := some (.bool true) } none [f, kS op, Key.i i]
-    let cerrs ← rec cctx (.dict [(f, .dict d2)]) doc upd
-    let (n, es) ← logicalDefs env rec ctx schema doc f op upd rs (i + 1) ds
-    if cerrs.isEmpty then pure (n + 1, es)
-    else pure (n, dropSpL ctx.schemaPath.length [3] cerrs ++ es)
+  | _, [] => .ok (0, [])
+  | i, d :: ds =>
+    match defChild rec ctx doc f op upd rs i d with
+    | .error e => .error e
+    | .ok cerrs =>
+      match logicalDefs rec ctx doc f op upd rs (i + 1) ds with
+      | .error e => .error e
+      | .ok (n, es) =>
+        if cerrs.isEmpty then .ok (n + 1, es)
+        else .ok (n, dropSpL ctx.schemaPath.length [3] cerrs ++ es)
+
+/-- the threshold of each operator -/
+def logicalFails (op : String) (valids n : Nat) : Bool :=
+  match op with
+  | "anyof" => decide (valids < 1)
+  | "allof" => decide (valids < n)
+  | "noneof" => decide (valids > 0)
+  | _ => valids != 1
 
 def hLogical (env : Env) (rec : Rec) (ctx : Ctx) (schema doc : Val) (f : Key) (op : String) (code : Nat)
-    (c v : Val) (upd : Bool) : M (List ESpec) := do
+    (c v : Val) (upd : Bool) : M (List ESpec) :=
   let _ := v
-  let defs ← liftPy (c.pyIter? "__validate_logical")
-  let rs ← fieldRules env schema f "__validate_logical"
-  let (valids, errs) ← logicalDefs env rec ctx schema doc f op upd rs 0 defs
-  let n := defs.length
-  let failed : Bool := match op with
-    | "anyof" => decide (valids < 1)
-    | "allof" => decide (valids < n)
-    | "noneof" => decide (valids > 0)
-    | _ => valids != 1
-  if failed then
-    let e : ESpec := { code := code, rule := some op, info := [.int valids, .int n], kids := errs }
-    pure [e]
-  else pure []
+  match c.pyIter? "__validate_logical" with
+  | .error x => .error (.py x.type x.site)
+  | .ok defs =>
+    match fieldRules env schema f "__validate_logical" with
+    | .error e => .error e
+    | .ok rs =>
+      match logicalDefs rec ctx doc f op upd rs 0 defs with
+      | .error e => .error e
+      | .ok (valids, errs) =>
+        if logicalFails op valids defs.length then
+          .ok [{ code := code, rule := some op, info := [.int valids, .int defs.length], kids := errs }]
+        else .ok []
 
 def checkOne (env : Env) (v : Val) : Val → M (List ESpec)
   | .str name | .fn name =>
